@@ -34,11 +34,6 @@ LIST = [
   'ModbusUdpClient defaults to timeout=None: a lost reply blocks recvfrom for ever'),
  ('KF-C13-UDP-RETRY', 'C13', {'class': 'retry-not-honoured', 'kind': 'udp'},
   'UDP client: a retry switches to partial reads (full=False), recvfrom(8) truncates the reply datagram and the retried transaction times out, so retry_on_empty / retry_on_invalid never deliver the reply'),
- ('KF-C13-FRAMER-EXCEPTION', 'C13', {'class': 'raised', 'where': ['ascii_framer.checkFrame', 'ascii_framer.getFrame', 'ascii_framer.processIncomingPacket',
-                                                                    'binary_framer.checkFrame', 'binary_framer.processIncomingPacket',
-                                                                    'rtu_framer.populateHeader', 'rtu_framer.checkFrame', 'rtu_framer._process',
-                                                                    'socket_framer._process', 'socket_framer.checkFrame']},
-  'an exception other than ModbusIOException raised by the framer/decoder while processing a received reply (binascii.Error from a2b_hex on odd-length ASCII, struct.error / IndexError on a truncated PDU) escapes execute() instead of being returned as an error object'),
  ('KF-C14-TLS-EXCEPTION', 'C14', {'framing': 'tls', 'reply': 'exception'},
   'TLS framing: the client waits for the predicted normal-reply length, so an exception reply (2 bytes) costs the full timeout and is then dropped'),
  ('KF-C15-CONNECT-RACE', 'C15', {'preconnected': False},
